@@ -4,6 +4,7 @@ LemmasCvcDec, composition here).  No Mathlib.
 -/
 import Bee2V.C17.LemmasCvcEnc
 import Bee2V.C17.LemmasCvcDec
+import Bee2V.C17.Laws
 namespace Bee2V.C17
 open Bee2V.C08
 
@@ -15,23 +16,20 @@ attribute [local irreducible] certEnc
 theorem wrapSign_inv (S : Sig) (c c' : Cvc) (body priv cert : Bytes) (h : wrapSign S c body priv = (.ok, c', cert)) :
     ∃ sg, S.sign body priv = (.ok, sg) ∧ c' = { c with sig := sg.take (sigLenOfPriv priv.length) } ∧
       certEnc body c'.sig = .ok cert := by
-  unfold wrapSign at h
-  dsimp only at h
+  unfold wrapSign wrapSignWith at h
   by_cases hsc : (S.sign body priv).1 ≠ .ok
-  · rw [if_pos hsc] at h; exact absurd (congrArg Prod.fst h) hsc
+  · rw [if_pos hsc] at h; exact absurd (Prod.mk.inj h).1 hsc
   rw [if_neg hsc] at h
   have hsc' : (S.sign body priv).1 = .ok := by simpa using hsc
   obtain ⟨rc2, hce⟩ : ∃ r, certEnc body (List.take (sigLenOfPriv priv.length) (S.sign body priv).2) = r := ⟨_, rfl⟩
   rw [hce] at h
   cases rc2 with
-  | err => exact absurd (congrArg Prod.fst h) (by simp)
-  | oob => exact absurd (congrArg Prod.fst h) (by simp)
+  | err => exact absurd (Prod.mk.inj h).1 (by simp)
+  | oob => exact absurd (Prod.mk.inj h).1 (by simp)
   | ok cert0 =>
-    dsimp only at h
-    have h2 := congrArg Prod.snd h
-    dsimp only at h2
-    have hc' : c' = { c with sig := List.take (sigLenOfPriv priv.length) (S.sign body priv).2 } := (congrArg Prod.fst h2).symm
-    have hcert : cert0 = cert := congrArg Prod.snd h2
+    have h2 := Prod.mk.inj (Prod.mk.inj h).2
+    have hc' : c' = { c with sig := List.take (sigLenOfPriv priv.length) (S.sign body priv).2 } := h2.1.symm
+    have hcert : cert0 = cert := h2.2
     refine ⟨(S.sign body priv).2, ?_, hc', ?_⟩
     · rw [← hsc']
     · rw [hc', ← hcert]; exact hce
@@ -44,15 +42,15 @@ theorem wrapChecked_inv (S : Sig) (c c' : Cvc) (priv cert : Bytes) (h : wrapChec
   unfold wrapChecked at h
   dsimp only at h
   by_cases hck : cvcCheck S c ≠ .ok
-  · rw [if_pos hck] at h; exact absurd (congrArg Prod.fst h) hck
+  · rw [if_pos hck] at h; exact absurd (Prod.mk.inj h).1 hck
   rw [if_neg hck] at h
   refine ⟨by simpa using hck, ?_⟩
   obtain ⟨rb, hb⟩ : ∃ rb, bodyEnc c = rb := ⟨_, rfl⟩
   rw [hb] at h
   cases rb with
-  | err => exact absurd (congrArg Prod.fst h) (by simp)
-  | oob => exact absurd (congrArg Prod.fst h) (by simp)
-  | ok body => exact ⟨body, rfl, h⟩
+  | err => exact absurd (Prod.mk.inj h).1 (by simp)
+  | oob => exact absurd (Prod.mk.inj h).1 (by simp)
+  | ok body => exact ⟨body, hb, h⟩
 end
 
 section
@@ -63,7 +61,7 @@ theorem cvcWrap_inv (S : Sig) (c c' : Cvc) (priv cert : Bytes) (h : cvcWrap S c 
   have hpl : privLenOk priv.length = true := by
     cases hp : privLenOk priv.length
     · rw [hp] at h
-      have := congrArg Prod.fst h
+      have := (Prod.mk.inj h).1
       simp at this
     · rfl
   rw [if_neg (by simp [hpl])] at h
@@ -73,11 +71,11 @@ theorem cvcWrap_inv (S : Sig) (c c' : Cvc) (priv cert : Bytes) (h : cvcWrap S c 
   rw [hr] at h
   dsimp only at h
   by_cases hrc : rc ≠ .ok
-  · rw [if_pos hrc] at h; exact absurd (congrArg Prod.fst h) hrc
+  · rw [if_pos hrc] at h; exact absurd (Prod.mk.inj h).1 hrc
   rw [if_neg hrc] at h
   have hrc' : rc = .ok := by simpa using hrc
   subst hrc'
-  exact ⟨c1, rfl, h⟩
+  exact ⟨c1, hr, h⟩
 end
 
 theorem wrapGenPub_inv (S : Sig) (c c1 : Cvc) (priv : Bytes) (h : wrapGenPub S c priv = (.ok, c1)) :
@@ -88,12 +86,192 @@ theorem wrapGenPub_inv (S : Sig) (c c1 : Cvc) (priv : Bytes) (h : wrapGenPub S c
     dsimp only at h
     by_cases hk : (S.pubkeyCalc priv).1 ≠ .ok
     · rw [if_pos hk] at h
-      exact absurd (congrArg Prod.fst h) hk
+      exact absurd (Prod.mk.inj h).1 hk
     · rw [if_neg hk] at h
       right
-      refine ⟨h0, (S.pubkeyCalc priv).2, ?_, (congrArg Prod.snd h).symm⟩
+      refine ⟨h0, (S.pubkeyCalc priv).2, ?_, (Prod.mk.inj h).2.symm⟩
       have : (S.pubkeyCalc priv).1 = .ok := by simpa using hk
       rw [← this]
-  · rw [if_neg h0] at h; exact Or.inl (congrArg Prod.snd h).symm
+  · rw [if_neg h0] at h; exact Or.inl (Prod.mk.inj h).2.symm
+
+/-! ### the certificate SEQ { body, OCT[5F37] sig } read back -/
+
+section
+attribute [local irreducible] tlvC tlHd bodyCode certCode
+theorem bodyCode_le (c1 : Cvc) (hv : cvcSeemsValid c1 = true) (he : c1.hatEid.length = 5) (hs : c1.hatEsign.length = 2) :
+    (bodyCode c1).length ≤ 1000 := by
+  have hK : (bodyContent c1).length ≤ 600 := by
+    simp only [cvcSeemsValid, Bool.and_eq_true] at hv
+    obtain ⟨⟨⟨⟨⟨hna, hnh⟩, hdf⟩, hdu⟩, _⟩, hpl⟩ := hv
+    simp only [nameIsValid, Bool.and_eq_true, decide_eq_true_eq] at hna hnh
+    rw [nameMax_eq] at hna hnh
+    have hfl := dateIsValid_len _ hdf
+    have hul := dateIsValid_len _ hdu
+    have hpk : c1.pubkey.length ≤ 128 := pubkey_len_le _ hpl
+    have hA := tlvC_le 0x42 c1.authority (ltU32 (by omega)) (by unfold W; omega)
+    have hH := tlvC_le 0x5F20 c1.holder (ltU32 (by omega)) (by unfold W; omega)
+    have hF := tlvC_le 0x5F25 c1.from_ (ltU32 (by omega)) (by unfold W; omega)
+    have hU := tlvC_le 0x5F24 c1.until_ (ltU32 (by omega)) (by unfold W; omega)
+    have hB := tlvC_le 3 (0 :: c1.pubkey) (ltU32 (by omega)) (by simp only [List.length_cons]; unfold W; omega)
+    simp only [List.length_cons] at hB
+    have hO := oidC_len_pubkey
+    have hP := tlvC_le 0x7F49 (oidC oid_pubkey ++ bitC c1.pubkey) (ltU32 (by omega))
+      (by simp only [List.length_append]; unfold bitC W; omega)
+    simp only [List.length_append] at hP
+    have hE1 := hatEidC_le c1 he
+    have hE2 := hatEsignC_le c1 hs
+    have hvl : verC.length = 4 := rfl
+    have hbit : (bitC c1.pubkey).length = (tlvC 3 (0 :: c1.pubkey)).length := rfl
+    unfold bodyContent
+    simp only [List.length_append, hvl]
+    generalize (tlvC 0x42 c1.authority).length = n1 at *
+    generalize (tlvC 0x5F20 c1.holder).length = n2 at *
+    generalize (tlvC 0x5F25 c1.from_).length = n3 at *
+    generalize (tlvC 0x5F24 c1.until_).length = n4 at *
+    generalize (tlvC 0x7F49 (oidC oid_pubkey ++ bitC c1.pubkey)).length = n5 at *
+    generalize (tlvC 3 (0 :: c1.pubkey)).length = n6 at *
+    generalize (hatEidC c1).length = n7 at *
+    generalize (hatEsignC c1).length = n8 at *
+    generalize (oidC oid_pubkey).length = n9 at *
+    omega
+  have := tlvC_le 0x7F4E (bodyContent c1) (ltU32 (by omega)) (by unfold W; omega)
+  unfold bodyCode; omega
+
+/-- all the DER-level facts btokCVCUnwrap needs about a certificate written as certCode (bodyCode c1) sig -/
+theorem cert_decode_facts (c1 : Cvc) (sig : Bytes) (hv : cvcSeemsValid c1 = true) (he : c1.hatEid.length = 5)
+    (hs : c1.hatEsign.length = 2) (hsl : sig.length ≤ 96) :
+    ∃ a t t3, derTSEQDecStart (certCode (bodyCode c1) sig) 0x7F21 = .ok (a, t) ∧
+      bodyDec ((certCode (bodyCode c1) sig).drop t) = .ok ({ c1 with sig := [] }, (bodyCode c1).length) ∧
+      ((certCode (bodyCode c1) sig).drop t).take (bodyCode c1).length = bodyCode c1 ∧
+      derTOCTDec2 ((certCode (bodyCode c1) sig).drop (t + (bodyCode c1).length)) 0x5F37 sig.length = .ok (sig, t3) ∧
+      derTSEQDecStop (t + (bodyCode c1).length + t3) a = .ok () ∧
+      (certCode (bodyCode c1) sig).length = t + (bodyCode c1).length + t3 ∧
+      (certCode (bodyCode c1) sig).drop (t + (bodyCode c1).length) = tlvC 0x5F37 sig ++ [] := by
+  have hbl := bodyCode_le c1 hv he hs
+  generalize hB : bodyCode c1 = body at *
+  have hSl := tlvC_le 0x5F37 sig (ltU32 (by omega)) (by unfold W; omega)
+  generalize hSg : tlvC 0x5F37 sig = Sg at *
+  have hcl : (body ++ Sg).length = body.length + Sg.length := List.length_append
+  have sC : certCode body sig = tlHd 0x7F21 (body ++ Sg) ++ (body ++ Sg) := by unfold certCode; rw [hSg]; exact tlvC_split _ _
+  have lC := tlHd_length 0x7F21 (body ++ Sg)
+  generalize hT : tlHd 0x7F21 (body ++ Sg) = T at *
+  have hTl : T.length ≤ 13 := by
+    have h4 := tCount_le4 0x7F21 (ltU32 (by omega))
+    have h9 := derLEnc_le9 (body ++ Sg).length (by rw [hcl]; unfold W; omega)
+    omega
+  refine ⟨⟨0, 0x7F21, (body ++ Sg).length⟩, T.length, Sg.length, ?_, ?_, ?_, ?_, ?_, ?_, ?_⟩
+  · have := seqStart_tlvC 0x7F21 (body ++ Sg) [] tv_7F21 tc_7F21 (ltU32 (by omega)) (by rw [hcl]; unfold SIZE_MAX; omega)
+    rw [List.append_nil, tlvC_split, hT, ← lC] at this
+    rw [sC]; exact this
+  · have hd : (certCode body sig).drop T.length = body ++ (Sg ++ []) := by
+      rw [sC, drop_at _ _ _ rfl, List.append_nil]
+    rw [hd, ← hB]
+    refine bodyDec_bodyCode c1 _ hv he hs (by simp only [List.length_append, List.length_nil]; omega) ?_
+    intro _
+    rw [← hSg, startsWith_tlvC 0x5F37 0x65 sig [] tv_5F37 (ltU32 (by omega))]
+    rfl
+  · rw [sC, drop_at _ _ _ rfl]
+    exact List.take_left' rfl
+  · have e : certCode body sig = (T ++ body) ++ (Sg ++ []) := by rw [sC]; simp only [List.append_assoc, List.append_nil]
+    rw [e, drop_at _ _ _ (by simp only [List.length_append]), ← hSg]
+    refine octDec2_tlvC 0x5F37 sig [] tv_5F37 (ltU32 (by omega)) ?_
+    simp only [List.length_nil]; unfold W; omega
+  · refine stop_ok 0x7F21 (body ++ Sg) _ tv_7F21 (by omega) (by rw [hcl]; omega) ?_
+    rw [hT, hcl]; omega
+  · rw [sC, List.length_append, hcl]; omega
+  · have e : certCode body sig = (T ++ body) ++ (Sg ++ []) := by rw [sC]; simp only [List.append_assoc, List.append_nil]
+    rw [e, drop_at _ _ _ (by simp only [List.length_append])]
+end
+
+/-! ### the signature-length probe of btokCVCUnwrap(…, 0, 0) -/
+
+theorem derDec3_of_derDec (x : Bytes) (tag off len c L : Nat) (h : derDec x = .ok (tag, off, len, c)) :
+    derDec3 x tag L = if len ≠ L then .err else .ok (off, c) := by
+  unfold derDec3
+  rw [h]
+  by_cases hl : len ≠ L <;> simp [hl]
+
+theorem sigLenProbe_of_derDec (x : Bytes) (off len c : Nat) (h : derDec x = .ok (0x5F37, off, len, c))
+    (hl : len = 34 ∨ len = 48 ∨ len = 72 ∨ len = 96) : sigLenProbe x = .ok len := by
+  unfold sigLenProbe
+  rw [derDec3_of_derDec x _ _ _ _ 34 h, derDec3_of_derDec x _ _ _ _ 48 h, derDec3_of_derDec x _ _ _ _ 72 h,
+    derDec3_of_derDec x _ _ _ _ 96 h]
+  rcases hl with h1 | h1 | h1 | h1 <;> subst h1 <;> simp
+
+section
+attribute [local irreducible] tlvC
+theorem sigLenProbe_tlvC (sig : Bytes) (hl : sig.length = 34 ∨ sig.length = 48 ∨ sig.length = 72 ∨ sig.length = 96) :
+    sigLenProbe (tlvC 0x5F37 sig ++ []) = .ok sig.length := by
+  obtain ⟨e, he, hd, _⟩ := derEnc_roundtrip' 0x5F37 sig tv_5F37 (ltU32 (by omega)) []
+    (by simp only [List.length_nil]; unfold W; omega)
+  rw [tlvC_eq_derEnc 0x5F37 sig tv_5F37] at he
+  cases he
+  exact sigLenProbe_of_derDec _ _ _ _ hd hl
+end
+
+/-- everything btokCVCUnwrap will find in a certificate written by btokCVCWrap -/
+theorem cvcWrap_facts (S : Sig) (L : SigLaws S) (c c' : Cvc) (priv cert : Bytes)
+    (he : c.hatEid.length = 5) (hs : c.hatEsign.length = 2) (h : cvcWrap S c priv = (.ok, c', cert)) :
+    privLenOk priv.length = true ∧ ∃ body a t t3, cvcCheck S c' = .ok ∧ S.sign body priv = (.ok, c'.sig) ∧
+      sigLenProbe (cert.drop (t + body.length)) = .ok c'.sig.length ∧
+      derTSEQDecStart cert 0x7F21 = .ok (a, t) ∧
+      bodyDec (cert.drop t) = .ok ({ c' with sig := [] }, body.length) ∧
+      (cert.drop t).take body.length = body ∧
+      derTOCTDec2 (cert.drop (t + body.length)) 0x5F37 c'.sig.length = .ok (c'.sig, t3) ∧
+      derTSEQDecStop (t + body.length + t3) a = .ok () ∧ cert.length = t + body.length + t3 := by
+  obtain ⟨hpl, c1, hg, hw⟩ := cvcWrap_inv S c c' priv cert h
+  obtain ⟨hck, body, hb, hsg⟩ := wrapChecked_inv S c1 c' priv cert hw
+  obtain ⟨sg, hsign, hc', hce⟩ := wrapSign_inv S c1 c' body priv cert hsg
+  have he1 : c1.hatEid.length = 5 ∧ c1.hatEsign.length = 2 := by
+    rcases wrapGenPub_inv S c c1 priv hg with h1 | ⟨_, pk, _, h1⟩ <;> rw [h1] <;> exact ⟨he, hs⟩
+  -- the content is valid in the sense of btokCVCSeemsValid
+  have hchk := (cvcCheck_ok_iff' S c1).mp hck
+  have hv : cvcSeemsValid c1 = true := by
+    unfold cvcSeemsValid
+    simp only [hchk.1, hchk.2.1, hchk.2.2.1, hchk.2.2.2.1, hchk.2.2.2.2.1, L.pubVal_len _ hchk.2.2.2.2.2, Bool.and_self]
+  have hbody : body = bodyCode c1 := by
+    have := bodyEnc_eq c1 hv (by omega) (by omega)
+    rw [hb] at this; cases this; rfl
+  have hsl := L.sign_len body priv sg hsign
+  have hsg96 : sg.length ≤ 96 := by
+    rw [hsl]; unfold sigLenOfPriv
+    have : priv.length = 24 ∨ priv.length = 32 ∨ priv.length = 48 ∨ priv.length = 64 := by
+      have := hpl; simp only [privLenOk, privLens_eq] at this; simpa using this
+    rcases this with h | h | h | h <;> simp [h]
+  have hsig : c'.sig = sg := by rw [hc']; exact List.take_of_length_le (by omega)
+  have hcert : cert = certCode (bodyCode c1) c'.sig := by
+    have hbl := bodyCode_le c1 hv he1.1 he1.2
+    have := certEnc_eq body c'.sig (by rw [hsig, hbody]; unfold Bee2V.C08.W; omega)
+    rw [hce] at this; cases this; rw [hbody]
+  obtain ⟨a, t, t3, f1, f2, f3, f4, f5, f6, f7⟩ := cert_decode_facts c1 c'.sig hv he1.1 he1.2 (by rw [hsig]; exact hsg96)
+  rw [← hcert] at f1 f2 f3 f4 f6 f7
+  rw [← hbody] at f2 f3 f4 f5 f6 f7
+  have hc1 : ({ c1 with sig := [] } : Cvc) = { c' with sig := [] } := by rw [hc']
+  rw [hc1] at f2
+  have hslen : c'.sig.length = 34 ∨ c'.sig.length = 48 ∨ c'.sig.length = 72 ∨ c'.sig.length = 96 := by
+    rw [hsig, hsl]; unfold sigLenOfPriv
+    have : priv.length = 24 ∨ priv.length = 32 ∨ priv.length = 48 ∨ priv.length = 64 := by
+      have := hpl; simp only [privLenOk, privLens_eq] at this; simpa using this
+    rcases this with h | h | h | h <;> simp [h]
+  have hprobe : sigLenProbe (cert.drop (t + body.length)) = .ok c'.sig.length := by
+    rw [f7]; exact sigLenProbe_tlvC c'.sig hslen
+  refine ⟨hpl, body, a, t, t3, ?_, by rw [hsig]; exact hsign, hprobe, f1, f2, f3, f4, f5, f6⟩
+  rw [hc']; exact hck
+
+/-- btokCVCUnwrap without a key on a certificate whose DER layer decodes as stated: no verification, same content -/
+theorem cvcUnwrap_none_of_facts (S : Sig) (c' : Cvc) (body cert : Bytes) (hcheck : cvcCheck S c' = .ok)
+    (a : Anchor) (t t3 : Nat)
+    (h1 : derTSEQDecStart cert 0x7F21 = .ok (a, t))
+    (h2 : bodyDec (cert.drop t) = .ok ({ c' with sig := [] }, body.length))
+    (hp : sigLenProbe (cert.drop (t + body.length)) = .ok c'.sig.length)
+    (h4 : derTOCTDec2 (cert.drop (t + body.length)) 0x5F37 c'.sig.length = .ok (c'.sig, t3))
+    (h5 : derTSEQDecStop (t + body.length + t3) a = .ok ())
+    (h6 : cert.length = t + body.length + t3) :
+    cvcUnwrap S cert .none = .ok c' := by
+  unfold cvcUnwrap
+  dsimp only
+  unfold cvcUnwrap.go
+  simp only [h1, ofR, h2, sigLenOf, hp, h4, ne_eq, not_true_eq_false, if_false, h5, h6, Nat.sub_self, hcheck,
+    Bool.false_eq_true]
 
 end Bee2V.C17
